@@ -39,7 +39,11 @@ IndexOrders ==
      << Cr, Other("main"), Mn, Other("fd"), F1, I1, Other("creator"), F2, I2 >>,
      << Mn, Unk, F1, I1, Unk, F2, I2, Cr, Other("recv") >>,
      << I1, F2, Unk, Other("ifsc"), Cr, I2, Mn, F1, Cr >>,
-     << Cr, Unk0, Mn, F1, I1, F2, I2, Unk0 >> >>
+     << Cr, Unk0, Mn, F1, I1, F2, I2, Unk0 >>,
+     \* the set an index file denotes is the set of its FIRST packet, whatever that packet's type: an own packet of
+     \* an unknown type first, then packets of another set, then the own ones
+     << Unk, Other("main"), Other("fd"), Other("creator"), Cr, Mn, F1, I1, F2, I2 >>,
+     << Unk0, Other("creator"), Other("ifsc"), Mn, Cr, F2, I2, F1, I1 >> >>
 
 ExpSchemes == << << 0, 1, 2 >>, << 5, 6, 7 >>, << 1, 7, 300 >>, << 2000, 2001, 4094 >> >>
 
